@@ -3,7 +3,7 @@
 
 Decides one property of google/coset:
   1. translate  — regenerate lean/CosetGen/*.lean from /repo's current sources (tie T)
-  2. prove      — lake build CosetProofs.Props.Cxx (+ driver); audit axioms; scan for sorry/axiom/native_decide
+  2. prove      — lake build CosetProofs.Props.Cxx [CosetProofs.Props.CxxTies] (+ driver); audit axioms; scan for sorry/axiom/native_decide
   3. correspond — build the Rust harness from /repo's working tree, run the property's operation stream through the
                   implementation and the Lean model driver, compare (tie K); evaluate the property's own predicate
                   on the implementation's output
@@ -45,14 +45,14 @@ def scan_sources():
 
 def prove(pid, tier):
     """returns dict(ok, obligations, discharged, theorems{name: axioms}, broken[list], log)"""
-    target = 'CosetProofs.Props.%s' % pid
+    targets = P.prop_modules(pid); target = ' '.join(targets)
     res = dict(ok=False, obligations=0, discharged=0, theorems={}, broken=[], log='', wall=0.0)
     if tier == 'thorough':
         # clean rebuild of the proof library
         import shutil
         shutil.rmtree(os.path.join(R.LEAN, '.lake', 'build', 'lib', 'lean', 'CosetProofs'), ignore_errors=True)
         shutil.rmtree(os.path.join(R.LEAN, '.lake', 'build', 'ir', 'CosetProofs'), ignore_errors=True)
-    ok, out, dt = R.lake_build([target, 'driver'])
+    ok, out, dt = R.lake_build(targets + ['driver'])
     res['wall'] = dt; res['log'] = out[-6000:]
     # theorem axioms are reported by `#print axioms` in the Props file (lake replays cached logs)
     declared = P.declared_theorems(pid)
@@ -75,7 +75,7 @@ def prove(pid, tier):
     if hits: res['broken'].append('forbidden constructs: %s' % hits[:5])
     res['ok'] = ok and not bad_ax and not missing and not hits
     if tier == 'thorough' and ok:
-        rc, o, dt2 = R.sh(['lake', 'env', 'leanchecker', target], cwd=R.LEAN, timeout=3600)
+        rc, o, dt2 = R.sh(['lake', 'env', 'leanchecker'] + targets, cwd=R.LEAN, timeout=3600)
         res['leanchecker'] = dict(rc=rc, wall=dt2, out=o[-500:])
         if rc != 0:
             res['ok'] = False; res['broken'].append('leanchecker rejected %s' % target)
